@@ -17,7 +17,7 @@ pub type RawMode = u32;
 pub mod syscalls {
     use super::*;
 //@include prelude/syserr_opaque.rs
-//@use syscalls.openat_follow
+//@use syscalls.openat_follow u14
 //@use syscalls.readlinkat
 //@use syscalls.fstatfs a5
 //@use syscalls.fsopen
